@@ -54,6 +54,55 @@ Definition fetch_unaligned_array_std (d : des) (w : nat) (count : N) : option (l
 Definition be_fetch_aligned_array_std (d : des) (w : nat) (count : N) : option (list N * bytes * des) := None.
 Definition be_fetch_unaligned_array_std (d : des) (w : nat) (count : N) : option (list N * bytes * des) := None.
 
+(* ---- Python: floats on the Deserializer side: struct.unpack of the fetched bytes (Section variable, see PyPrims.Floats) ---- *)
+Definition fetch_aligned_float {F : Type} (bytes_to_float : N -> bytes -> F) (d : des) (size : N) : option (F * des) :=
+  match fetch_aligned_bytes d size with Some (bs, d') => Some (bytes_to_float size bs, d') | None => None end.
+Definition fetch_unaligned_float {F : Type} (bytes_to_float : N -> bytes -> F) (d : des) (size : N) : option (F * des) :=
+  match fetch_unaligned_bytes d size with Some (bs, d') => Some (bytes_to_float size bs, d') | None => None end.
+
+(* ---- Python: sequences of cursor operations and the delimited-serialization pattern of the generated code
+   (py/templates/serialization.j2):
+     _nested_ = _ser_.fork_bytes(n); _nested_.skip_bits(32); <child serializes into _nested_>;
+     L = _nested_.current_bit_length - 32; assert L % 8 == 0; _ser_.add_aligned_u32(L // 8); _ser_.skip_bits(L) ---- *)
+Definition ser_opn := ser -> option ser.
+Fixpoint run_ops (ops : list ser_opn) (s : ser) : option ser :=
+  match ops with [] => Some s | o :: t => match o s with Some s' => run_ops t s' | None => None end end.
+Definition ser_delimited (child : ser_opn) (n : N) (s : ser) : option ser :=
+  match ser_fork_bytes s n with
+  | None => None
+  | Some f =>
+      match child (skip_bits f 32) with
+      | None => None
+      | Some f' =>
+          let L := s_off f' - 32 in
+          if negb (L mod 8 =? 0) then None
+          else match add_aligned_u32 (ser_join s f') (L / 8) with
+               | Some p => Some (skip_bits p L)
+               | None => None
+               end
+      end
+  end.
+
+(* ---- C++: sequences of cursor operations on a bitspan: store-and-advance, void fields, alignment padding ---- *)
+Inductive cpp_op := CStoreU (value len : N) | CZeros (len : N) | CPad (n : N).
+Definition cpp_step (o : cpp_op) (s : span) : option span :=
+  match o with
+  | CStoreU v len => match cpp_set_uxx s v len with
+                     | Some (inl d) => Some (mkspan d (sp_size s) (w64 (sp_off s + len)))       (* setUxx; add_offset(len) *)
+                     | _ => None
+                     end
+  | CZeros len => match setZeros s len with
+                  | Some (inl d) => Some (mkspan d (sp_size s) (w64 (sp_off s + len)))          (* setZeros(len); add_offset(len) *)
+                  | _ => None
+                  end
+  | CPad n => match padAndMoveToAlignment s n with
+              | Some (inl (d, o')) => Some (mkspan d (sp_size s) o')
+              | _ => None
+              end
+  end.
+Fixpoint cpp_run (ops : list cpp_op) (s : span) : option span :=
+  match ops with [] => Some s | o :: t => match cpp_step o s with Some s' => cpp_run t s' | None => None end end.
+
 (* ---- Python: ZeroExtendingBuffer ---- *)
 Definition zeb_bit_length (b : bytes) : N := blen b * 8.
 (* fork_bytes(offset_bytes, length_bytes) *)
